@@ -68,6 +68,21 @@ def typedListB (dict : Lookup) : List Avp → Bool
   | a :: as => a.typedB dict && typedListB dict as
 end
 
+/- type names of the AVPs whose declared length lies about a fixed-size value (finding F1), outermost first -/
+mutual
+def Value.lieTys : Value → List Ty
+  | .grouped ms => lieTysList ms
+  | _ => []
+def Avp.lieTys : Avp → List Ty
+  | .mk _ vendor _ _ len _ v =>
+    (match fixedSize (tyOf v) with
+     | some n => if len == hdrLen vendor + n then [] else [tyOf v]
+     | none => []) ++ v.lieTys
+def lieTysList : List Avp → List Ty
+  | [] => []
+  | a :: as => a.lieTys ++ lieTysList as
+end
+
 def strictCfg (limit : Nat) : Cfg := ⟨fun _ _ => false, limit⟩
 
 end Dia
